@@ -224,6 +224,26 @@ pub fn run(ctx: &Ctx) -> i32 {
             check_case(ctx, st, &tcs, Settings::new(if i % 3 == 0 { REP } else { 0 }));
         });
     }
+    // classes over the code points around each UTF-8 / UTF-16 / plane boundary and the surrogate gap
+    {
+        let bcp = gen::boundary_code_points();
+        let mut sets: Vec<Vec<String>> = vec![];
+        for w in bcp.windows(7).step_by(2) {
+            for a in 0..w.len() {
+                for b in a + 1..w.len() {
+                    for c in b + 1..w.len() {
+                        sets.push(vec![w[a].to_string(), w[b].to_string(), w[c].to_string()]);
+                    }
+                }
+            }
+        }
+        sets.sort();
+        sets.dedup();
+        par_for(&ctx.run, sets.len(), |i, st| {
+            st.count("boundary_code_point_classes");
+            check_case(ctx, st, &sets[i], Settings::new(0));
+        });
+    }
     let n = if ctx.thorough { 80_000 } else { 4_000 };
     let names = ["ws", "meta", "mixed", "graph", "astral", "ab", "case", "classes", "sgr", "clusters", "tokens"];
     let alphabets: Vec<(String, Vec<String>)> = names.iter().map(|a| (a.to_string(), gen::alphabet(a))).collect();
